@@ -161,3 +161,86 @@ Qed.
 Theorem json_line_clean w e : json_clean (JObj (event_members w e)) = true ->
   forallb ge32 (print_json (JObj (event_members w e))) = true.
 Proof. apply print_clean. Qed.
+
+
+(* ---------------- exactly one line ---------------- *)
+Lemma ge32_to_upper c : ge32 c = true -> ge32 (to_upper c) = true.
+Proof.
+  unfold ge32, to_upper, is_lower. intro H. apply N.leb_le in H.
+  destruct ((97 <=? c) && (c <=? 122)) eqn:E; [|apply N.leb_le; assumption].
+  apply andb_true_iff in E as [E1 E2]. apply N.leb_le in E1. apply N.leb_le. lia.
+Qed.
+
+Lemma forallb_map_upper s : forallb ge32 s = true -> forallb ge32 (map to_upper s) = true.
+Proof.
+  induction s as [|c s IH]; cbn [map forallb]; [reflexivity|]. intro H. apply andb_true_iff in H as [H1 H2].
+  rewrite ge32_to_upper by assumption. now apply IH.
+Qed.
+
+Lemma all_digits_clean s : all_digits s -> forallb ge32 s = true.
+Proof. intro H. unfold all_digits in H. apply forallb_forall. intros x Hx. rewrite Forall_forall in H. specialize (H x Hx). apply N.leb_le. lia. Qed.
+
+Lemma fmt_uint_clean n : forallb ge32 (fmt_uint n) = true.
+Proof. destruct (fmt_uint_spec n) as (d & ds & E & Hd & _). rewrite E. now apply all_digits_clean. Qed.
+
+Lemma fmt_int_clean z : forallb ge32 (fmt_int z) = true.
+Proof. destruct z; cbn [fmt_int]; [reflexivity|apply fmt_uint_clean|]. cbn [forallb]. rewrite fmt_uint_clean. reflexivity. Qed.
+
+Lemma pad_digit_clean n : ge32 (48 + n mod 10) = true.
+Proof. apply N.leb_le. lia. Qed.
+
+Lemma time_str_clean t : forallb ge32 (time_str t) = true.
+Proof.
+  unfold time_str, pad2, pad3, pad4. cbn [app forallb]. rewrite !pad_digit_clean. reflexivity.
+Qed.
+
+Lemma forallb_skipn {A} (f : A -> bool) n (l : list A) : forallb f l = true -> forallb f (skipn n l) = true.
+Proof.
+  revert l; induction n as [|n IH]; intros l H; [exact H|]. destruct l as [|x l]; [reflexivity|].
+  cbn [skipn]. cbn [forallb] in H. apply andb_true_iff in H as [_ H]. now apply IH.
+Qed.
+
+Lemma file_line_clean w file line : forallb ge32 file = true -> forallb ge32 (get_file_line w file line) = true.
+Proof.
+  intro H. unfold get_file_line.
+  assert (Hfl : forallb ge32 (file ++ [58] ++ fmt_int line) = true).
+  { rewrite !forallb_app, H, fmt_int_clean. reflexivity. }
+  destruct (Z.ltb _ _); [|exact Hfl].
+  cbn [app forallb]. unfold lastn. rewrite forallb_skipn by exact Hfl. reflexivity.
+Qed.
+
+Lemma joinb_clean sep (l : list bytes) : forallb ge32 sep = true -> (forall p, In p l -> forallb ge32 p = true) -> forallb ge32 (joinb sep l) = true.
+Proof.
+  intros Hs. induction l as [|p ps IH]; intro H; [reflexivity|].
+  destruct ps as [|q qs]; cbn [joinb]; [apply H; left; reflexivity|].
+  rewrite !forallb_app, Hs. rewrite (H p (or_introl eq_refl)). cbn [andb]. apply IH. intros x Hx. apply H. right. exact Hx.
+Qed.
+
+(* the header of a text line is free of control bytes when level name, file name and tag are (they come from the level
+   registry, the runtime and the validated tag language) - the context string may be ANY byte string: it is escaped *)
+Lemma text_header_clean w e :
+  forallb ge32 (ev_level e) = true -> forallb ge32 (ev_file e) = true -> forallb ge32 (ev_tag e) = true ->
+  forallb ge32 (text_header w e) = true.
+Proof.
+  intros Hl Hf Ht. unfold text_header. rewrite !forallb_app.
+  rewrite forallb_map_upper by assumption. rewrite time_str_clean. rewrite file_line_clean by assumption. rewrite Ht.
+  cbn [forallb]. change (ge32 91) with true. change (ge32 93) with true. change (ge32 32) with true. cbn [andb].
+  destruct (is_nil (ev_ctx_string e)); [reflexivity|]. rewrite forallb_app, escape_clean. reflexivity.
+Qed.
+
+(* EXACTLY ONE LINE: the text layout's output is a body without any byte below 0x20 (no line feed, no carriage return, no
+   other control character) followed by one line feed - whatever the context string, the field keys and the field values are *)
+Theorem text_layout_one_line w e :
+  forallb ge32 (ev_level e) = true -> forallb ge32 (ev_file e) = true -> forallb ge32 (ev_tag e) = true ->
+  wf_event e = true ->
+  (forall kx, In kx (ev_ctx_fields e ++ ev_fields e) -> forallb (fun kv : bytes * json => json_clean (snd kv)) (field_members kx) = true) ->
+  exists body, text_layout w e = body ++ [10] /\ forallb ge32 body = true.
+Proof.
+  intros Hl Hf Ht Hwf Hcl. rewrite text_layout_spec.
+  exists (text_header w e ++ joinb sep2 (flat_map text_chunks (ev_ctx_fields e ++ ev_fields e))).
+  split; [now rewrite <- app_assoc|]. rewrite forallb_app, text_header_clean by assumption. cbn [andb].
+  apply joinb_clean; [reflexivity|]. intros c Hc. apply in_flat_map in Hc as (kx & Hkx & Hc).
+  apply (text_chunk_clean kx c); [|now apply Hcl|exact Hc].
+  unfold wf_event in Hwf. apply andb_true_iff in Hwf as [H1 H2]. rewrite forallb_forall in H1, H2.
+  apply in_app_or in Hkx as [Hk|Hk]; [now apply H1|now apply H2].
+Qed.
